@@ -1114,7 +1114,6 @@ func isBoolVarNamed(v ssa.Value, name string) bool {
 	}
 }
 
-
 // calleesIn: static callees of fn inside package rel (one level).
 func calleesIn(fn *ssa.Function, rel string) []*ssa.Function {
 	var out []*ssa.Function
@@ -1125,7 +1124,6 @@ func calleesIn(fn *ssa.Function, rel string) []*ssa.Function {
 	})
 	return out
 }
-
 
 // c02ConstPool: R10 - constant-pool deduplication never merges constants of different kinds.
 func c02ConstPool(c *Ctx) {
